@@ -535,8 +535,13 @@ func (da *DistributedAllocator) loadAllocations(ctx context.Context) error {
 				continue
 			}
 
-			// Allocate in epoch allocator (will set correct generation)
-			da.epochAllocator.Allocate(ctx, alloc.SubscriberID)
+			// Restore the stored address in the epoch allocator (sets the
+			// current generation). Re-allocating instead would hand out the
+			// next free address, which depends on the enumeration order of the
+			// store and is generally not the address on record.
+			if err := da.epochAllocator.SetAllocation(alloc.SubscriberID, prefix.IP); err != nil {
+				continue
+			}
 		} else {
 			// Session mode: set allocation directly from store
 			if err := da.allocator.SetAllocation(alloc.SubscriberID, prefix); err != nil {
@@ -587,11 +592,13 @@ func (da *DistributedAllocator) handleRemoteChange(key string, value []byte, del
 
 		// Check if we already have this allocation
 		if existing := da.epochAllocator.Lookup(alloc.SubscriberID); existing != nil {
-			return // Already in sync
+			if existing.Equal(prefix.IP) {
+				return // Already in sync
+			}
 		}
 
-		// Allocate in epoch allocator
-		da.epochAllocator.Allocate(context.Background(), alloc.SubscriberID)
+		// Apply the announced address
+		da.epochAllocator.SetAllocation(alloc.SubscriberID, prefix.IP)
 	} else {
 		// Session mode: check if we already have this allocation
 		if existing := da.allocator.Lookup(alloc.SubscriberID); existing != nil {
